@@ -513,10 +513,17 @@ class ParameterCollection(metaclass=_ParameterCollectionType):
                     setattr(self, pd.fieldName, currentValue)
                     pd.assigned = SINCE_ANYTHING
                     self.assigned = SINCE_ANYTHING
-            elif retainedValue != currentValue:
-                setattr(self, pd.fieldName, currentValue)
-                pd.assigned = SINCE_ANYTHING
-                self.assigned = SINCE_ANYTHING
+            else:
+                try:
+                    differs = bool(retainedValue != currentValue)
+                except Exception:
+                    # e.g. a numpy scalar against a list, or flags against None: not comparable,
+                    # so certainly not the same
+                    differs = True
+                if differs:
+                    setattr(self, pd.fieldName, currentValue)
+                    pd.assigned = SINCE_ANYTHING
+                    self.assigned = SINCE_ANYTHING
 
     def where(
         self, f: Callable[[parameterDefinitions.Parameter], bool]
